@@ -17,5 +17,5 @@ with open("/verif/seeded/SUMMARY.md", "w") as f:
     for r in rows:
         f.write("| " + " | ".join(r) + " |\n")
     f.write(f"\n{len(rows)} changes; {sum(1 for r in rows if r[4] != '-')} caught by at least one check.\n")
-    f.write("\nBase commits: each patch.diff applies to the commit of /repo that was HEAD when the change was written and confirmed - ed62bb8 for A..H (C09-G/H and C10-G/H were re-confirmed on 91fa669), 91fa669 for I and J, d1ef5b1 for K and L (confirmed on 9c38a01, where they apply unchanged), 28b6ba2 for M and N (confirmed on 4ca5041 except C11-M, C11-N and C19-M, which touch the lines fix F37 rewrote and were confirmed on their base; see their meta.json). Later fix commits leave most patches applicable as they are; C03-J, C08-D, C08-F, C08-I, C11-C and C15-J touch the walk callbacks that fix F34 changed and need their base commit.\n")
+    f.write("\nBase commits: each patch.diff applies to the commit of /repo that was HEAD when the change was written and confirmed - ed62bb8 for A..H (C09-G/H and C10-G/H were re-confirmed on 91fa669), 91fa669 for I and J, d1ef5b1 for K and L (confirmed on 9c38a01, where they apply unchanged), 28b6ba2 for M and N (confirmed on 4ca5041 except C11-M, C11-N and C19-M, which touch the lines fix F37 rewrote and were confirmed on their base; see their meta.json). Later fix commits leave most patches applicable as they are; C03-J, C08-D, C08-F, C08-I, C11-C and C15-J touch the walk callbacks that fix F34 changed and need their base commit. Rounds 8 to 12: 4ca5041 for O and P (confirmed on cc5a9fa and later; patch.rebased.diff where a later fix touched the same lines), 5573dd6 for Q and R (confirmed on afa283c; C04-R and C07-Q rebased), afa283c - the final HEAD - for S to X.\n")
 print(len(rows), "rows")
